@@ -100,6 +100,8 @@ func runC09(c *Ctx) {
 	rulePacketDeadline(c, p, "C09.deadline")
 	ruleVersionArgs(c, p, "C09.version")
 	ruleAllColumns(c, p, "C09.all-columns")
+	ruleKeyWidth(c, p, "C09.keywidth")
+	ruleInferByName(c, p, "C09.infer-name")
 	c.R.Assumptions = append(c.R.Assumptions,
 		"(*proto.Writer).Flush writes synchronously (net.Buffers.WriteTo) and drops every reference afterwards (C09.writer.* = the C14 induction steps)",
 		"decided: order of encode / flush / callback / terminator on all paths; not decided: byte equality of each block with the snapshot taken inside the callback")
@@ -498,4 +500,49 @@ func ruleInputStream(c *Ctx, p *core.Program, roles *doRoles, prefix string) {
 		}
 		runErrDisc(c, p, []*ssa.Function{senderFn}, errDiscOpts{Rule: rule, Class: scls})
 	}
+}
+
+// ruleInferByName (C09 / C18): the server's column types reach the input columns of the same name.
+func ruleInferByName(c *Ctx, p *core.Program, rule string) {
+	c.R.Rule(rule, "in the client's INSERT path every Inferable.Infer call that hands a type from the server's header block (ColInfo.Type) to an input column is reachable only through the edge on which that column's name equals the header column's name (InputColumn.Name == ColInfo.Name): pairing by position gives a column another column's enum definition or precision whenever the caller's order differs from the table's")
+	cfg := p.Cfg.Name
+	n := 0
+	for _, fn := range p.Funcs() {
+		if pkgOf(fn) == nil || pkgOf(fn).Path() != core.PkgCh || fn.Blocks == nil {
+			continue
+		}
+		for _, call := range core.Calls(fn) {
+			cc := call.Common()
+			if !cc.IsInvoke() || cc.Method.Name() != "Infer" || len(cc.Args) != 1 {
+				continue
+			}
+			if core.FieldOrigin(cc.Args[0], 0) != "ColInfo.Type" {
+				continue
+			}
+			n++
+			key := core.CallKey(fn, call)
+			isName := func(v ssa.Value, typ string) bool { return core.FieldOrigin(v, 0) == typ+".Name" }
+			eq := core.CondEdges(fn, true, func(cond ssa.Value) (bool, bool) {
+				v, pol := core.StripNot(cond)
+				bo, ok := v.(*ssa.BinOp)
+				if !ok || (bo.Op != token.EQL && bo.Op != token.NEQ) {
+					return false, false
+				}
+				if !(isName(bo.X, "InputColumn") && isName(bo.Y, "ColInfo") || isName(bo.Y, "InputColumn") && isName(bo.X, "ColInfo")) {
+					return false, false
+				}
+				if bo.Op == token.NEQ {
+					pol = !pol
+				}
+				return pol, true
+			})
+			if len(eq) > 0 && core.OnlyViaEdges(fn, call.(ssa.Instruction), eq) {
+				c.R.Ok(rule, key, cfg, p.Pos(call.Pos()), "Infer is behind InputColumn.Name == ColInfo.Name")
+			} else {
+				c.R.Bad(rule, key, cfg, p.Pos(call.Pos()), "an input column is given a header column's type without their names having been compared: columns are paired by position, so with a column order different from the table's every inferable column (Enum, DateTime64, Decimal, Auto) adopts another column's parameters")
+			}
+		}
+	}
+	c.R.Count("Infer calls fed from the header block", n)
+	c.R.Floor(rule, cfg, n, 1)
 }
